@@ -28,10 +28,18 @@ def rand_head(rng, tag, big):
     if rng.chance(1, 5):
         # headers that proxies use to name the original client: they are ordinary headers, the peer address stays the socket's
         hs.insert(rng.below(len(hs) + 1), rng.choice(FORWARDING))
+    if rng.chance(1, 6):
+        # the same field name several times (here: Connection, with options that do not end the connection): each line is
+        # delivered as its own header, in order
+        for v in rng.choice([["keep-alive", "x-opt"], ["x-a", "x-b", ""], ["Keep-Alive", "keep-alive"]]):
+            hs.insert(rng.below(len(hs) + 1), (rng.choice(["Connection", "connection", "CONNECTION"]), v))
     r = AReq(method=rng.choice(STD_METHODS + EXT_METHODS), target=random_target(rng) + "?t=" + tag,
              version=rng.choice(["1.1", "1.1", "1.0"]), headers=hs)
     if r.version == "1.0":
-        r.conn = rng.choice(["keep-alive", "Keep-Alive"])
+        if any(n.lower() == "connection" for n, _ in hs):
+            r.version = "1.1"          # (the first Connection field decides persistence; keep the pipeline alive)
+        else:
+            r.conn = rng.choice(["keep-alive", "Keep-Alive"])
     for i in range(len(r.all_headers())):
         if rng.chance(1, 2):
             r.ows[i] = (rng.choice(OWS), rng.choice(OWS))
